@@ -390,6 +390,12 @@ structure LoopSt (σ : Type) where
   mf : σ
   ms : List Match
 
+/-- `matches.count > 0 && matches.len[matches.count - 1] >= nice_len` -/
+def niceBreak (ms : List Match) (nice : Nat) : Bool :=
+  match ms.getLast? with
+  | some m => decide (m.1 ≥ nice)
+  | none => false
+
 /-- `while { self.opt_cur += 1; self.opt_cur < self.opt_end } { … }`; returns the final `opt_cur` and whether the
     loop was left by `break` (a match of at least `nice_len` at `opt_cur`) -/
 def mainLoop {σ : Type} (F : Finder σ) (E : Env) (p avail0 : Nat) :
@@ -400,10 +406,7 @@ def mainLoop {σ : Type} (F : Finder σ) (E : Env) (p avail0 : Nat) :
     if cur < st.a.optEnd then
       let fm := F.find E.d st.mf
       let st := { st with mf := fm.2, ms := fm.1 }
-      let brk := match fm.1.getLast? with
-        | some m => decide (m.1 ≥ E.nice)
-        | none => false
-      if brk then (cur, st, true)
+      if niceBreak fm.1 E.nice then (cur, st, true)
       else
         let avail := avail0 - cur
         let q := p + cur
